@@ -244,8 +244,10 @@ func RWideSpec() *ref.Struct {
 // DfltRev declares its fields in an order different from their ids, with pairwise different
 // defaults: defaults must follow the field, not the position of its declaration.
 type DfltRev struct {
+	Cache  int     // not serialised (no tag): the positions of Go fields and of Thrift fields differ
 	Port   int32   `frugal:"2,optional,i32"`
 	Weight int32   `frugal:"1,optional,i32"`
+	note   string  // unexported, untagged
 	Name   string  `frugal:"4,optional,string"`
 	Host   string  `frugal:"3,optional,string"`
 	Ratio  float64 `frugal:"6,optional,double"`
@@ -254,6 +256,7 @@ type DfltRev struct {
 
 func (p *DfltRev) InitDefault() {
 	p.Port, p.Weight, p.Name, p.Host, p.Ratio, p.Scale = 8080, 10, "nm", "host", 1.5, 0.25
+	p.Cache, p.note = 77, "n"
 }
 
 // DfltRevOuter nests DfltRev where the decoder creates structs, including as a map key.
